@@ -305,6 +305,54 @@ def register(R):
     for q, n in (('_finish_transfers', 1), ('_wait_transfers_done', 1)):
         R.contract(f'{MGR}.{q}', params={}, inline=True, loops={0: trivial_loop()})
     R.contract(f'{MGR}._cancel_transfers', params={}, inline=True, loops={0: LoopSpec(invariant=lambda l: {}, iteration_checks=cancel_iteration)})
+    register_public(R)
+
+
+def register_public(R):
+    """CRTTransferManager.download / upload / delete: validation first, then exactly one _submit_transfer with the right request
+    type and call arguments that ARE the user's (bucket, key, file, extra args, subscribers); what it returns is returned."""
+    for q in ('_validate_all_known_args', '_validate_if_bucket_supported', '_validate_checksum_algorithm_supported'):
+        R.contract(f'{MGR}.{q}', params=dict(actual=Any, allowed=Any) if q == '_validate_all_known_args' else
+                   (dict(bucket=ExtT('str')) if q == '_validate_if_bucket_supported' else dict(extra_args=Any)),
+                   raise_when={'ValueError': lambda c: None}, modifies=lambda c: [])
+    R.mark_inline(f'{UT}:CallArgs.__init__')
+
+    def public(rtype, has_file, validators):
+        def chk(c):
+            tr = c.trace
+            sub = calls(tr, 'CRTTransferManager._submit_transfer')
+            vals = [e for e in tr if e.kind == 'call' and '._validate_' in e.name]
+            okk = len(sub) == 1 and [e.name.split('.')[-1] for e in vals] == validators and all(index_of(tr, v) < index_of(tr, sub[0]) for v in vals)
+            out = {'validates_first_then_submits_exactly_one_transfer_of_the_right_type': B(bool(okk and sub[0].extra['env']['request_type'] == rtype))}
+            if okk:
+                ca = sub[0].extra['env']['call_args']
+                h = c.new.obj(ca) if isinstance(ca, Ref) else None
+                ua, us = c.a_extra_args, c.a_subscribers
+                def same_or_default(got, user):
+                    if isinstance(user, Opt):
+                        return got is user.val or got is user or (isinstance(got, Ref) and not isinstance(user.val, Ref))
+                    return got is user
+                okc = h is not None and h.fields.get('bucket') is c.a_bucket and h.fields.get('key') is c.a_key \
+                    and (not has_file or h.fields.get('fileobj') is c.a_fileobj)
+                out['call_args_are_the_users_bucket_key_and_file'] = B(bool(okc))
+                out['returns_the_submitted_transfers_future'] = B(c.result is sub[0].result)
+                if h is not None and isinstance(ua, Opt):
+                    ea = h.fields.get('extra_args')
+                    out['the_users_extra_args_are_passed_on_when_given'] = z3.Or(ua.is_none, B(ea is ua.val or ea is ua))
+                if h is not None and isinstance(us, Opt):
+                    sb = h.fields.get('subscribers')
+                    out['the_users_subscribers_are_passed_on_when_given'] = z3.Or(us.is_none, B(sb is us.val or sb is us))
+            return out
+        return chk
+
+    base = dict(bucket=ExtT('str'), key=ExtT('str'), extra_args=OptT(ExtT('extra_args')), subscribers=OptT(ExtT('subscriber_list')))
+    for name, rtype, has_file, validators in (
+            ('download', 'get_object', True, ['_validate_all_known_args', '_validate_if_bucket_supported']),
+            ('upload', 'put_object', True, ['_validate_all_known_args', '_validate_if_bucket_supported', '_validate_checksum_algorithm_supported']),
+            ('delete', 'delete_object', False, ['_validate_all_known_args', '_validate_if_bucket_supported'])):
+        params = dict(base, fileobj=ExtT('fileobj_or_name')) if has_file else dict(base)
+        R.contract(f'{MGR}.{name}', props=['C20', 'C15'], params=params, top_level=True,
+                   checks=public(rtype, has_file, validators), raises={'ValueError': only_propagates, 'Exception': only_propagates})
 
 
 ROOTS = [f'{MGR}._submit_transfer', f'{ARGS}.get_crt_callback', f'{ARGS}._get_make_request_args_get_object', f'{RTH}.__call__',
